@@ -131,7 +131,7 @@ def judge_fault_case(case, d, clean):
         bad.append(("fd-leak", "%s file descriptors leaked" % d["fds"]))
     # retry with memory available must succeed and equal the failure-free result exactly
     if d["retry_err"] != ERR_OK:
-        bad.append(("retry-fails", "retry after recovery (rec=%s) fails with error %s at %s although memory is available" % (t[5], d["retry_err"], d["retry_stage"])))
+        bad.append(("retry-fails/%s/%s" % (d["retry_err"], d["retry_stage"].split("(")[0]), "retry after recovery (rec=%s) fails with error %s at %s although memory is available" % (t[5], d["retry_err"], d["retry_stage"])))
     elif d["retry_hash"] != clean_hash or d.get("retry_exec", "-") != clean_exec:
         bad.append(("retry-differs", "retry after recovery (rec=%s) produced %s/%s, failure-free run %s/%s" % (t[5], d["retry_hash"], d.get("retry_exec"), clean_hash, clean_exec)))
     if d["run_err"] == ERR_OK:
@@ -222,11 +222,17 @@ def gen_holder_script(rng, n):
     ops, nl = ["L"], 1
     for _ in range(n):
         c = rng.random()
-        if c < 0.22:
+        if c < 0.18:
             ops.append("L"); nl += 1
-        elif c < 0.32:
+        elif c < 0.24:
             ops.append("R")
-        elif c < 0.50:
+        elif c < 0.32:
+            ops.append("S%d" % rng.choice([-7, 0, 0, 3, 3, 100, 2147483647, -2147483648]))
+        elif c < 0.38:
+            ops.append("A%d" % rng.choice([4096, 8192, 12288, rng.getrandbits(47)]))
+        elif c < 0.46:
+            ops.append("C%d" % rng.choice([4096, 8192, 0x123456789ABC, rng.getrandbits(47)]))
+        elif c < 0.58:
             ops.append("F%d" % rng.randrange(nl + 1))
         elif c < 0.75:
             ops.append("E%d" % rng.randrange(nl + 1))
@@ -235,6 +241,23 @@ def gen_holder_script(rng, n):
         else:
             ops.append("B%d" % rng.randrange(0 if rng.random() < 0.1 else 1, nl + 1))
     return ["S", "holder", "MASK"] + ops
+
+
+def gen_builder_script(rng, n):
+    ops, nl, ns = [], 0, 1
+    for _ in range(n):
+        c = rng.random()
+        if c < 0.25:
+            ops.append("n"); nl += 1
+        elif c < 0.45:
+            ops.append("b%d" % rng.randrange(nl + 2))
+        elif c < 0.60:
+            ops.append("s%d" % rng.randrange(ns + 1))
+        elif c < 0.70:
+            ops.append("S%d" % rng.choice([0, 0, 5, -3])); ns += 1
+        else:
+            ops.append("i")
+    return ["S", "builder", "MASK"] + ops
 
 
 def with_mask(script, mask):
@@ -356,17 +379,63 @@ def judge_script(cmd, ans):
                 bad.append(("pool/constant-not-at-offset", "constant %s is not stored at the offset %d that add() returned" % (d.hex(), off)))
     elif kind == "holder":
         ops = t[3:]
-        prev = (0, 0, 0)
+        prev = (0, 0, 0, 1, 0)     # labels, relocations, unresolved fixups, sections (.text), address-table entries
         for op, tok in zip(ops, toks):
-            r, nl, nr, un, pl = map(int, tok.split("/"))
-            cur = (nl, nr, un)
-            if r != 0 and cur != prev:
-                bad.append(("holder/failed-op-changed-state/" + op[0], "%s failed (result %d) but (labels, relocations, unresolved fixups) went %s -> %s" % (op, r, prev, cur)))
-            if r == 0:
-                exp = {"L": (prev[0] + 1, prev[1], prev[2]), "R": (prev[0], prev[1] + 1, prev[2]), "F": (prev[0], prev[1], prev[2] + 1)}.get(op[0])
+            r, nl, nr, un, pl, ns, ne = map(int, tok.split("/"))
+            cur = (nl, nr, un, ns, ne)
+            if r != 0:
+                # a failed A/C may have created the (empty) address-table section lazily; nothing else may change
+                lazy = op[0] in "AC" and cur == (prev[0], prev[1], prev[2], prev[3] + 1, prev[4])
+                if cur != prev and not lazy:
+                    bad.append(("holder/failed-op-changed-state/" + op[0], "%s failed (result %d) but (labels, relocations, unresolved fixups, sections, address entries) went %s -> %s" % (op, r, prev, cur)))
+            else:
+                exp = {"L": (prev[0] + 1,) + prev[1:], "R": (prev[0], prev[1] + 1) + prev[2:], "F": prev[:2] + (prev[2] + 1,) + prev[3:],
+                       "S": prev[:3] + (prev[3] + 1, prev[4])}.get(op[0])
                 if exp and cur != exp:
                     bad.append(("holder/ok-result/" + op[0], "%s succeeded but counts went %s -> %s" % (op, prev, cur)))
-                if op[0] == "E" and (cur[0] != prev[0] or cur[1] != prev[1] + 1 or cur[2] not in (prev[2], prev[2] + 1)):
+                if op[0] == "E" and (cur[0] != prev[0] or cur[1] != prev[1] + 1 or cur[2] not in (prev[2], prev[2] + 1) or cur[3:] != prev[3:]):
                     bad.append(("holder/ok-result/E", "%s succeeded but counts went %s -> %s" % (op, prev, cur)))
+                if op[0] in "AC":
+                    okc = cur[0] == prev[0] and cur[2] == prev[2] and cur[1] == prev[1] + (1 if op[0] == "C" else 0) \
+                        and cur[3] in (prev[3], prev[3] + 1) and cur[4] in (prev[4], prev[4] + 1)
+                    if not okc:
+                        bad.append(("holder/ok-result/" + op[0], "%s succeeded but counts went %s -> %s" % (op, prev, cur)))
             prev = cur
+        if len(dumps) >= 5:
+            orders = [int(x) for x in dumps[2].split(",")] if dumps[2] != "-" else []
+            by = [int(x) for x in dumps[3].split(",")] if dumps[3] != "-" else []
+            if sorted(by) != list(range(len(orders))) or any((orders[by[i]], by[i]) > (orders[by[i + 1]], by[i + 1]) for i in range(len(by) - 1)):
+                bad.append(("holder/sections-by-order", "sections_by_order %s is not the ids sorted by (order, id) for orders %s" % (by, orders)))
+    elif kind == "builder":
+        ops = t[3:]
+        # replay: the node list must be exactly what the successful operations build (independent python replay)
+        secs, cur, bound, nlab, nsec = [[0, []]], 0, set(), 0, 1
+        pln, psn = 0, 1
+        for op, tok in zip(ops, toks):
+            r, nl, ln, sn, ns = map(int, tok.split("/"))
+            if r != 0 and (ln < pln or sn < psn):
+                bad.append(("builder/failed-op-dropped-nodes", "%s failed (result %d) and the label/section node tables shrank (%d,%d) -> (%d,%d)" % (op, r, pln, psn, ln, sn)))
+            pln, psn = ln, sn
+            if op[0] == "n":
+                if r == 0: nlab += 1
+                elif nl not in (nlab, nlab + 1):
+                    bad.append(("builder/label-count", "failed new_label changed the label count %d -> %d" % (nlab, nl)))
+                else: nlab = nl          # an orphan label may stay in the holder
+            elif op[0] == "S" and r == 0: nsec += 1
+            elif op[0] == "i" and r == 0:
+                [x for x in secs if x[0] == cur][0][1].append("I")
+            elif op[0] == "b" and r == 0:
+                li = int(op[1:])
+                if li in bound or li >= nlab: bad.append(("builder/bind-accepted", "%s accepted (bound %s, labels %d)" % (op, li in bound, nlab)))
+                bound.add(li); [x for x in secs if x[0] == cur][0][1].append("L%d" % li)
+            elif op[0] == "s" and r == 0:
+                sid = int(op[1:])
+                if sid >= nsec: bad.append(("builder/section-accepted", "%s accepted with %d sections" % (op, nsec)))
+                if not [x for x in secs if x[0] == sid]: secs.append([sid, []])
+                cur = sid
+            if nl != nlab or ns != nsec:
+                bad.append(("builder/counts", "after %s (result %d): labels %d sections %d, expected %d %d" % (op, r, nl, ns, nlab, nsec))); break
+        want = " ".join("S%d%s" % (sid, "".join(" " + x for x in ns_)) for sid, ns_ in secs)
+        if dumps and dumps[0] != want:
+            bad.append(("builder/node-list", "node list %r differs from what the successful operations build %r" % (dumps[0][:200], want[:200])))
     return bad
